@@ -125,6 +125,9 @@ class _NdT(ast.NodeTransformer):
     def visit_Call(self, n):
         self.generic_visit(n)
         if isinstance(n.func, ast.Name) and n.func.id in _ORDER_FREE:
+            if n.func.id in ("sorted", "min", "max") and any(k.arg == "key" for k in n.keywords) and n.args:
+                # with a key function ties are broken by input order: order-free only if the keys are distinct
+                n.args = [self._w(n.args[0])] + n.args[1:]
             return n
         n.args = [a if isinstance(a, ast.Starred) else self._w(a) for a in n.args]
         return n
